@@ -574,7 +574,9 @@ impl super::TrackBits for TrackBits {
         }
     }
     fn to_nibbles(&mut self,bits: &[u8]) -> Vec<u8> {
-        // dump exactly one revolution starting on an address prolog
+        // dump exactly one revolution starting on the first address prolog after the reference bit,
+        // so that the dump is a function of the track and not of where the head was left
+        self.reset();
         let mut ans: Vec<u8> = Vec::new();
         let mut byte: [u8;1] = [0;1];
         if self.find_byte_pattern(bits,&self.adr_fmt.prolog.clone(), &self.adr_fmt.prolog_mask.clone(), None) == None {
